@@ -18,6 +18,8 @@
                     armed for) is in flight towards BatchTimedOut
      Timeout        the event loop receives the oldest in-flight token: processEventBatch(token)
      Cancel s       the context of a parked sender's call is cancelled (no effect in this code)
+     Fault          the sink's next Write will fail
+     Deploy         HandleDeploy on the live operator while no call is outstanding
    handleCheckpointBarrier holds o.mu for its whole run and alignSender runs under o.mu.RLock, so a
    Gate never interleaves inside a barrier's Handle; the other handlers do not touch o.checkpoint. *)
 From Coq Require Import List NArith Bool Arith.
@@ -55,7 +57,8 @@ Record dat := mkDat {
   batch : list bitem; btoken : N; armed : option N; inflight : list N;
   wms : list N; wm : N; timers : list (N * N);
   applied : list bitem; log : list lentry;
-  active : list nat }.              (* sourceRunners.active: runners that have not sent SourceComplete *)
+  active : list nat;                (* sourceRunners.active: runners that have not sent SourceComplete *)
+  sinkfault : bool }.               (* the next sink.Write returns an error (harness-injected fault) *)
 
 Record st := mkSt {
   modes : list mode;
@@ -65,7 +68,7 @@ Record st := mkSt {
   dt : dat }.
 
 Definition init_dat (c : cfg) : dat :=
-  mkDat [] 0 None [] (repeat 0 (n_senders c)) 0 [] [] [] (seq 0 (n_senders c)).
+  mkDat [] 0 None [] (repeat 0 (n_senders c)) 0 [] [] [] (seq 0 (n_senders c)) false.
 Definition init (c : cfg) : st :=
   mkSt (repeat Idle (n_senders c)) (repeat [] (n_senders c)) None 0 (init_dat c).
 
@@ -90,6 +93,13 @@ Fixpoint tsplit (w : N) (l : list (N * N)) : list (N * N) * list (N * N) :=
   | y :: l' => if fst y <=? w then let '(f, r) := tsplit w l' in (y :: f, r) else ([], l)
   end.
 
+Definition set_fault (f : bool) (x : dat) : dat :=
+  mkDat (batch x) (btoken x) (armed x) (inflight x) (wms x) (wm x) (timers x) (applied x) (log x) (active x) f.
+Definition set_timers (t : list (N * N)) (x : dat) : dat :=
+  mkDat (batch x) (btoken x) (armed x) (inflight x) (wms x) (wm x) t (applied x) (log x) (active x) (sinkfault x).
+(* processEventBatch returned the sink's error between x and x' *)
+Definition errored (x x' : dat) : bool := sinkfault x && negb (sinkfault x').
+
 (* ---- processEventBatch ---- *)
 (* the recording handler: every entry becomes a put under its own entry key; a keyed event with
    tm<>0 asks for a timer, which TimerRegistry.SetTimer drops unless watermark < tm *)
@@ -98,7 +108,7 @@ Definition apply_item (x : dat) (b : bitem) : dat :=
              | BEv _ _ key tm => if negb (tm =? 0) && (wm x <? tm) then tinsert (tm, key) (timers x) else timers x
              | BTm _ _ _ => timers x
              end in
-  mkDat (batch x) (btoken x) (armed x) (inflight x) (wms x) (wm x) tms (b :: applied x) (LApp b :: log x) (active x).
+  mkDat (batch x) (btoken x) (armed x) (inflight x) (wms x) (wm x) tms (b :: applied x) (LApp b :: log x) (active x) (sinkfault x).
 
 (* tok = None is batching.CurrentBatch *)
 Definition flush (tok : option N) (x : dat) : dat :=
@@ -107,32 +117,44 @@ Definition flush (tok : option N) (x : dat) : dat :=
   | _ :: _ =>
       if match tok with None => true | Some t => t =? btoken x end then
         let x1 := mkDat [] (btoken x + 1) None (inflight x) (wms x) (wm x) (timers x) (applied x)
-                        (LCall (wm x) :: log x) (active x) in
-        fold_left apply_item (batch x) x1
+                        (LCall (wm x) :: log x) (active x) (sinkfault x) in
+        (* results applied (timers, state mutations), then the sink writes: an armed fault makes the first write
+           fail, processEventBatch returns that error - after the state was applied *)
+        set_fault false (fold_left apply_item (batch x) x1)
       else x
   end.
 
 (* eventBatcher.Add; if IsFull then processEventBatch(CurrentBatch) *)
 Definition add_item (c : cfg) (x : dat) (b : bitem) : dat :=
   let arm := match batch x with [] => if delay c then Some (btoken x) else armed x | _ :: _ => armed x end in
-  let x1 := mkDat (batch x ++ [b]) (btoken x) arm (inflight x) (wms x) (wm x) (timers x) (applied x) (log x) (active x) in
+  let x1 := mkDat (batch x ++ [b]) (btoken x) arm (inflight x) (wms x) (wm x) (timers x) (applied x) (log x) (active x) (sinkfault x) in
   if msize c <=? N.of_nat (length (batch x1)) then flush None x1 else x1.
 
 Definition list_min (l : list N) : N :=
   match l with [] => 0 | a :: l' => fold_left N.min l' a end.
 
+(* handleWatermark's loop over the due timers: delete, yield into the batch, flush when full; a failed flush
+   makes handleWatermark return at once: the timers not yet yielded stay in the store *)
+Fixpoint fire_all (c : cfg) (o : origin) (fired : list (N * N)) (x : dat) : dat :=
+  match fired with
+  | [] => x
+  | tk :: f' =>
+      let x' := add_item c x (BTm o (snd tk) (fst tk)) in
+      if errored x x' then set_timers (f' ++ timers x') x' else fire_all c o f' x'
+  end.
+
 Definition handle_wm (c : cfg) (x : dat) (o : origin) (t : N) : dat :=
   let w := set_nth (fst o) t (wms x) in
   let m := list_min w in
   let '(fired, rest) := tsplit m (timers x) in
-  let x1 := mkDat (batch x) (btoken x) (armed x) (inflight x) w m rest (applied x) (log x) (active x) in
-  fold_left (fun y tk => add_item c y (BTm o (snd tk) (fst tk))) fired x1.
+  let x1 := mkDat (batch x) (btoken x) (armed x) (inflight x) w m rest (applied x) (log x) (active x) (sinkfault x) in
+  fire_all c o fired x1.
 
 Definition push_log (e : lentry) (x : dat) : dat :=
-  mkDat (batch x) (btoken x) (armed x) (inflight x) (wms x) (wm x) (timers x) (applied x) (e :: log x) (active x).
+  mkDat (batch x) (btoken x) (armed x) (inflight x) (wms x) (wm x) (timers x) (applied x) (e :: log x) (active x) (sinkfault x).
 
 Definition set_active (a : list nat) (x : dat) : dat :=
-  mkDat (batch x) (btoken x) (armed x) (inflight x) (wms x) (wm x) (timers x) (applied x) (log x) a.
+  mkDat (batch x) (btoken x) (armed x) (inflight x) (wms x) (wm x) (timers x) (applied x) (log x) a (sinkfault x).
 
 Fixpoint remove_nat (s : nat) (l : list nat) : list nat :=
   match l with [] => [] | y :: l' => if Nat.eqb s y then remove_nat s l' else y :: remove_nat s l' end.
@@ -160,8 +182,10 @@ Definition handle_item (c : cfg) (x : st) (s : nat) (it : item) : st :=
       (* handleSourceComplete: flush the pending batch, deactivate the runner (o.stop() when none is left:
          see the guard of Handle in step). newCheckpoint keeps using sourceRunners.all, so the set of
          awaited barriers does not depend on active. *)
-      let d1 := flush None (push_log (LAct o it true) (dt x)) in
-      mkSt modes' sent' (ckpt x) (done x) (set_active (remove_nat s (active d1)) d1)
+      let d0 := push_log (LAct o it true) (dt x) in
+      let d1 := flush None d0 in
+      (* a failed flush is returned before the runner is deactivated *)
+      mkSt modes' sent' (ckpt x) (done x) (if errored d0 d1 then d1 else set_active (remove_nat s (active d1)) d1)
   | IBar cid =>
       let '(cur, missing) := match ckpt x with Some cm => cm | None => (cid, seq 0 (n_senders c)) end in
       if negb (cid =? cur) then   (* registerBarrier: checkpoint ID mismatch -> error reply *)
@@ -177,7 +201,8 @@ Definition handle_item (c : cfg) (x : st) (s : nat) (it : item) : st :=
         end
   end.
 
-Inductive action := Gate (s : nat) (it : item) | Wake (s : nat) | Handle (s : nat) | TimerFire | Timeout | Cancel (s : nat).
+Inductive action := Gate (s : nat) (it : item) | Wake (s : nat) | Handle (s : nat) | TimerFire | Timeout | Cancel (s : nat)
+  | Fault | Deploy.
 
 Definition set_d (x : st) (y : dat) : st := mkSt (modes x) (sent x) (ckpt x) (done x) y.
 
@@ -210,13 +235,30 @@ Definition step (c : cfg) (x : st) (a : action) : option st :=
   | TimerFire =>
       match armed (dt x) with
       | Some t => let y := dt x in
-          Some (set_d x (mkDat (batch y) (btoken y) None (inflight y ++ [t]) (wms y) (wm y) (timers y) (applied y) (log y) (active y)))
+          Some (set_d x (mkDat (batch y) (btoken y) None (inflight y ++ [t]) (wms y) (wm y) (timers y) (applied y) (log y) (active y) (sinkfault y)))
       | None => None
       end
+  | Fault =>  (* the harness arms the sink: its next Write fails *)
+      if sinkfault (dt x) then None else Some (set_d x (set_fault true (dt x)))
+  | Deploy =>
+      (* HandleDeploy on the live operator (same runners, fresh storage, no checkpoint to restore), taken when no
+         HandleEventBatch call is outstanding and the operator's batch is empty: o.checkpoint = nil, new DKV, state
+         store, timer registry, upstreams. The batcher (token, in-flight time-outs) and the sink survive.
+         The observation log and the per-sender delivery counts restart: everything is per deployment. *)
+      if forallb (fun m => match m with Idle => true | _ => false end) (modes x)
+         && match batch (dt x) with [] => true | _ => false end then
+        let y := dt x in
+        Some (mkSt (modes x) (repeat [] (n_senders c)) None (done x)
+                   (mkDat [] (btoken y) (armed y) (inflight y) (repeat 0 (n_senders c)) 0 [] [] []
+                          (seq 0 (n_senders c)) (sinkfault y)))
+      else None
   | Timeout =>
+      (* with an armed sink fault the time-out flush would fail and processEvents would return the error, which
+         stops the operator: not part of the schedules considered *)
+      if sinkfault (dt x) then None else
       match inflight (dt x) with
       | t :: r => let y := dt x in
-          Some (set_d x (flush (Some t) (mkDat (batch y) (btoken y) (armed y) r (wms y) (wm y) (timers y) (applied y) (log y) (active y))))
+          Some (set_d x (flush (Some t) (mkDat (batch y) (btoken y) (armed y) r (wms y) (wm y) (timers y) (applied y) (log y) (active y) (sinkfault y))))
       | [] => None
       end
   end.
@@ -227,13 +269,24 @@ Fixpoint exec (c : cfg) (x : st) (acts : list action) : option st :=
   | a :: acts' => match step c x a with Some x' => exec c x' acts' | None => None end
   end.
 
-(* the delivery sequence of sender s in a schedule *)
-Fixpoint script (acts : list action) (s : nat) : list item :=
+(* the delivery sequence of sender s in a schedule without redeployment *)
+Fixpoint script0 (acts : list action) (s : nat) : list item :=
   match acts with
   | [] => []
-  | Gate s' it :: acts' => if Nat.eqb s' s then it :: script acts' s else script acts' s
-  | _ :: acts' => script acts' s
+  | Gate s' it :: acts' => if Nat.eqb s' s then it :: script0 acts' s else script0 acts' s
+  | _ :: acts' => script0 acts' s
   end.
+Fixpoint has_deploy (acts : list action) : bool :=
+  match acts with [] => false | Deploy :: _ => true | _ :: acts' => has_deploy acts' end.
+(* the part of the schedule after its last Deploy: the current deployment *)
+Fixpoint after_deploy (acts : list action) : list action :=
+  match acts with
+  | [] => []
+  | a :: acts' => if has_deploy acts' then after_deploy acts'
+                  else match a with Deploy => acts' | _ => a :: acts' end
+  end.
+(* what sender s delivered in the current deployment *)
+Definition script (acts : list action) (s : nat) : list item := script0 (after_deploy acts) s.
 
 Definition entry_origin (e : lentry) : option origin :=
   match e with LAct o _ _ => Some o | LApp b => Some (org b) | _ => None end.
